@@ -349,7 +349,7 @@ class Derivation(Constraint):
                             ok = False
                             break
                     else:
-                        new_x = x + ((t + delta) * window.stride * get_trial_size(x) + 1)
+                        new_x = x + ((t * window.stride + delta) * get_trial_size(x) + 1)
                         if new_x <= 0:
                             ok = False
                             break
